@@ -11,6 +11,35 @@ use std::cell::Cell;
 use std::rc::Rc;
 use std::time::{Duration, Instant};
 
+/// A source without any fd whose before_sleep hook takes 300 ms and never produces an event.
+struct SlowHook;
+impl calloop::EventSource for SlowHook {
+    type Event = ();
+    type Metadata = ();
+    type Ret = ();
+    type Error = std::io::Error;
+    fn process_events<F>(&mut self, _: calloop::Readiness, _: calloop::Token, _: F) -> Result<calloop::PostAction, Self::Error>
+    where
+        F: FnMut((), &mut ()),
+    {
+        Ok(calloop::PostAction::Continue)
+    }
+    fn register(&mut self, _: &mut calloop::Poll, _: &mut calloop::TokenFactory) -> calloop::Result<()> {
+        Ok(())
+    }
+    fn reregister(&mut self, _: &mut calloop::Poll, _: &mut calloop::TokenFactory) -> calloop::Result<()> {
+        Ok(())
+    }
+    fn unregister(&mut self, _: &mut calloop::Poll) -> calloop::Result<()> {
+        Ok(())
+    }
+    const NEEDS_EXTRA_LIFECYCLE_EVENTS: bool = true;
+    fn before_sleep(&mut self) -> calloop::Result<Option<(calloop::Readiness, calloop::Token)>> {
+        std::thread::sleep(Duration::from_millis(300));
+        Ok(None)
+    }
+}
+
 fn run_case(line: &str) -> String {
     let ws: Vec<i64> = line.split_whitespace().filter_map(|w| w.parse().ok()).collect();
     if ws.len() < 3 {
@@ -52,6 +81,10 @@ fn run_case(line: &str) -> String {
             }
             6 => {
                 handle.insert_idle(|_| {}).cancel();
+            }
+            // 7: a lifecycle source whose before_sleep hook takes 300 ms: the time a hook takes counts against the wait, it is not slept again
+            7 => {
+                handle.insert_source(SlowHook, |_, _, _| {}).unwrap();
             }
             _ => {}
         }
